@@ -42,6 +42,125 @@ def compare(case, impl, model):
     return impl == model
 
 
+# ---------------------------------------------------------------------------------------------------------------------
+# Element-level classes (coverage round): the outcome the PROPERTY and the documented error mapping prescribe for every
+# case of the families noncanonical:<component>:<pos>.<limb>=<kind>, frilayer:*, lag:* — independent of the model.
+#   element-bearing components (OOD trace states / evaluations / Lagrange kernel states, opened rows, FRI rows, remainder):
+#       a word >= modulus is refused by the element reader  -> verify() = ProofDeserializationError (typed parser: err)
+#   Rescue digests (commitments, Merkle nodes): the digest readers reduce, they do not refuse -> never a parse error;
+#       a different residue is a different digest (some verification error), the same residue is the same proof (ok)
+#   a FRI layer without values is refused by Proof::from_bytes (parse-err); without paths by the typed parser
+#   Lagrange-kernel AIR: GKR proof absent / undecodable -> ProofDeserializationError, decodable but wrong ->
+#       GkrProofVerificationFailed
+def expected_outcome(label, res):
+    """None = as expected, else a description of what was expected (res: outcome class, first token of the result)"""
+    lab = label
+    lag = lab.startswith("lag:")
+    if lag:
+        lab = lab[4:]
+    component = lab.startswith("component:")
+    if component:
+        lab = lab[len("component:"):]
+    want = None
+    if lab.startswith("noncanonical:"):
+        _, comp, fk = lab.split(":", 2)
+        kind = fk.split("=", 1)[1]
+        digest = comp == "commitments" or comp.endswith(".paths")
+        if component:
+            want = ["ok"] if digest else ["err"]
+        elif digest:
+            if kind == "same":
+                want = ["ok"]
+            else:
+                return None if (res.startswith("err:") and res != "err:ProofDeserializationError") else "a verification error (a different digest)"
+        else:
+            want = ["err:ProofDeserializationError"]
+    elif lab.startswith("frilayer:"):
+        k = lab.split(":", 1)[1].split("@")[0]
+        if k == "paths-empty":
+            want = ["err"] if component else ["err:ProofDeserializationError"]
+        else:
+            want = ["parse-err"]
+    elif lag:
+        if lab == "valid" or lab.startswith("gkr=right"):
+            want = ["ok"]
+        elif lab == "gkr=none" or lab.startswith("gkr=undecodable") or lab.startswith("frame"):
+            want = ["err:ProofDeserializationError"]
+        elif lab.startswith("gkr=wrong"):
+            want = ["err:GkrProofVerificationFailed"]
+    if want is None:
+        return "no expectation recorded for this label"
+    return None if res in want else " or ".join(want)
+
+
+ELEMENT_COMPS = ["ood.trace", "ood.evals", "tq0.values", "tq1.values", "cq.values", "fri.values", "fri.remainder"]
+
+
+def _comp_class(comp):
+    import re
+    return re.sub(r"^fri\d+\.", "fri.", comp)
+
+
+def cell_obligations(ctx, tag, cells, with_lag):
+    """cells: list of (field/hasher, label, [outcome classes])"""
+    bad, seen, limbs = [], collections.Counter(), collections.Counter()
+    for fh, label, outs in cells:
+        for o in outs:
+            w = expected_outcome(label, o)
+            if w is not None:
+                bad.append((fh, label, o, w))
+        lab = label[4:] if label.startswith("lag:") else label
+        comp_level = lab.startswith("component:")
+        lab = lab[len("component:"):] if comp_level else lab
+        fld, hsh = (fh.split("/") + ["-"])[:2]
+        if lab.startswith("noncanonical:"):
+            _, comp, fk = lab.split(":", 2)
+            limb, kind = fk.split(".", 1)[1].split("=", 1)
+            digest = comp == "commitments" or comp.endswith(".paths")
+            key = ("digest", hsh, "paths" if comp.endswith(".paths") else comp, kind) if digest else ("elem", fld, _comp_class(comp), kind)
+            seen[("component" if comp_level else "proof",) + key] += 1
+            if not digest and not comp_level:
+                limbs[(fld, int(limb))] += 1
+        elif lab.startswith("frilayer:"):
+            seen[("component" if comp_level else "proof", "frilayer", lab.split(":", 1)[1].split("@")[0])] += 1
+        elif label.startswith("lag:"):
+            seen[("lag", lab.split(":")[0])] += 1
+    ctx.ob(f"element-cells-expected-outcome:{tag}", not bad,
+           f"{len(bad)} of {len(cells)} cases: " + "; ".join(f"{fh} {l}: {o} (expected {w})" for fh, l, o, w in bad[:6]))
+    reported = set()
+    for fh, l, o, w in bad:
+        cls = l.split("=")[0].rsplit(":", 1)[0] if l.count(":") >= 2 else l.split("=")[0]
+        if (fh, cls, o) in reported or len(reported) >= 12:
+            continue
+        reported.add((fh, cls, o))
+        ctx.add_failure({"what": f"element-level case with an unexpected outcome: {cls} impl={o}", "input": f"{fh} {l}", "expected": w, "actual": o, "profile": tag})
+    need = []
+    for level in ("proof", "component"):
+        for fld in ("f64", "f128", "f62"):
+            for comp in ELEMENT_COMPS:
+                for kind in ("mod", "mod+1", "ones", "same"):
+                    need.append((level, "elem", fld, comp, kind))
+        for k in ("values-empty", "both-empty", "paths-empty", "inserted-both-empty", "inserted-values-empty"):
+            need.append((level, "frilayer", k))
+    for hsh in ("rp64", "rpjive", "rp62"):
+        for comp in ("commitments", "paths"):
+            for kind in ("mod", "mod+1", "ones"):
+                need.append(("proof", "digest", hsh, comp, kind))
+    if with_lag:
+        for fld in ("f64", "f128", "f62"):
+            for kind in ("mod", "mod+1", "ones"):
+                need.append(("proof", "elem", fld, "ood.lagrange", kind))
+        need += [("lag", "valid"), ("lag", "gkr=none"), ("lag", "gkr=undecodable"), ("lag", "gkr=wrong"), ("lag", "gkr=right"), ("lag", "frame-1")]
+    missing = [k for k in need if seen.get(k, 0) == 0]
+    ctx.ob(f"element-cells-all-sampled:{tag}", not missing, f"{len(missing)} of {len(need)} (level, component, field, value kind) cells never sampled: " + ", ".join("/".join(k) for k in missing[:8]))
+    lneed = [("f64", 0), ("f64", 1), ("f64", 2), ("f128", 0), ("f128", 1), ("f62", 0), ("f62", 1), ("f62", 2)]
+    lmiss = [k for k in lneed if limbs.get(k, 0) == 0]
+    ctx.ob(f"element-cells-every-limb:{tag}", not lmiss, "base-field limbs of extension elements never overwritten: " + str(lmiss))
+    ctx.notes.setdefault("element_cells", {})[tag] = {"cases": len(cells), "distinct_cells": len(seen), "required": len(need)}
+    for k in seen:
+        ctx.distinct.add("cell:" + "/".join(str(x) for x in k))
+
+
 PAR_DRIVER = r'''#!/usr/bin/env python3
 # evaluates the extracted model on the cases of stdin: results are cached per case line (debug and release produce the same
 # cases, the model is evaluated once) and the misses are spread over several driver processes
@@ -176,6 +295,15 @@ def run(ctx):
             except OSError:
                 pass
             ctx.ob(f"harness-corr-exit:{profile}", rc == 0 and len(lines) > 1000, f"rc={rc} lines={len(lines)}")
+            cells = []
+            try:
+                for cl in open(f"{cdir}/corr-{profile}.err", errors="replace"):
+                    t = cl.rstrip("\n").split("\t")
+                    if len(t) == 4 and t[0] == "cell":
+                        cells.append((t[1], t[2], [t[3].strip().split(" ")[0]]))
+            except OSError:
+                pass
+            cell_obligations(ctx, f"corr:{profile}", cells, with_lag=False)
             diffs = ctx.correspondence(f"untrusted:{profile}", lines, drv, compare=compare, timeout=1500)
             # distribution of the outcome classes reached (so that an over-rejecting generator is visible)
             dist = collections.Counter()
@@ -196,9 +324,15 @@ def run(ctx):
                                  "replay": f"{hb} corr {ctx.seed} {n} {corpus} | grep -F '{dff['case'][:60]}'"})
         budget = n * (3 if ctx.broken() else 1)
         rc, out, _ = vcheck.sh([hb, "falsify", str(ctx.seed), str(budget), corpus], timeout=1500)
-        nfail, summary = 0, ""
+        nfail, summary, fcells = 0, "", []
         for line in out.split("\n"):
-            if line.startswith("{"):
+            if line.startswith("cell\t"):
+                t = line.split("\t")
+                if len(t) == 4:
+                    # typed-parser results carry shapes with commas: they are single results
+                    rs = [t[3]] if "component:" in t[2] else t[3].split(",")
+                    fcells.append((t[1], t[2], [x.strip().split(" ")[0] for x in rs]))
+            elif line.startswith("{"):
                 try:
                     f = json.loads(line)
                 except ValueError:
@@ -211,6 +345,8 @@ def run(ctx):
                 summary = line.strip()
                 ctx.evaluations += int(line.split()[0].split("=")[1])
         ctx.ob(f"falsifier-ran:{profile}", rc == 0 and summary != "", out[-300:] if rc else "no summary line")
+        # the same element-level cases with the plain AIR / proven-security policy, and the Lagrange-kernel AIR (falsifier only)
+        cell_obligations(ctx, f"falsify:{profile}", fcells, with_lag=True)
         ctx.notes.setdefault("falsifier", {})[profile] = {"budget": budget, "reported": nfail, "summary": summary}
     try:
         os.remove(os.path.join(vcheck.CACHE, "c06", f"model-results-{os.getpid()}.txt"))
